@@ -852,3 +852,11 @@ add("C13", "multi-character branch counts CR and LF separately", "sqlglot/tokeni
 add("C05", "revert: DataType enum looked up by token name without a membership test", P,
     "            if type_token.name not in exp.DType.__members__:\n                # Type tokens without a DataType counterpart are handled above, e.g. NULLABLE(<type>)\n                self.raise_error(f\"Invalid arguments for type {type_token.name}\")\n                self._retreat(index)\n                return None\n\n",
     "", "C05.p")
+
+add("C07", "revert: ON ERROR default rendered with str()", G,
+    "            f\"DEFAULT {self.sql(error)} ON ERROR\"", "            f\"DEFAULT {error} ON ERROR\"", "C07.f")
+add("C07", "lock wait literal rendered with str()", G,
+    "                wait = f\" WAIT {self.sql(wait)}\"", "                wait = f\" WAIT {wait}\"", "C07.f")
+add("C18", "constructor normalises qualifiers without is_table", SCHEMA,
+    "            normalized_keys = [self._normalize_name(key, is_table=True) for key in keys]",
+    "            *qualifiers, table_name = keys\n            normalized_keys = [self._normalize_name(key) for key in qualifiers]\n            normalized_keys.append(self._normalize_name(table_name, is_table=True))", "C18.e")
